@@ -1,0 +1,11 @@
+//go:build verif
+
+// Contracts for package mapr/client (comment-only; read by /verif/govc).
+
+package client
+
+//@ type Aggregate invariant [made] self.query != nil && self.group != nil && self.globalGroup != nil
+
+//@ func (*Aggregate).makeFields
+//@   assigns nothing
+//@   ensures [map-made] result != nil
